@@ -4,7 +4,10 @@ decoding to the source (library + independent Lean decoder + Conform); corrupted
 as the Lean model SeqApi.acceptExplicit says (whose validation position is regenerated from the source); everything runs in the
 ASan+UBSan build with exact-size sequence arrays.  Lengths that exceed a block by 2^32 (sums that are the legitimate size again in 32-bit
 arithmetic) are refused by ZSTD_compressSequences and for a registered producer's answer alike; ZSTD_mergeBlockDelimiters is compared with
-SeqApi.mergeDelims on every small arrangement of delimiters / sequences and on the lists extracted from sources with runs of match-less blocks."""
+SeqApi.mergeDelims on every small arrangement of delimiters / sequences and on the lists extracted from sources with runs of match-less blocks.
+run_hist_family (harness op cseqx): a history in front of the frame (prefix / loaded dictionary / CDict) with parses reaching into it, worker
+threads requested (same frame as without), and raw offsets that equal an entry of the repeat-offset history where that distance is not
+available (start of the frame; beyond the window) under every way of switching repcode search on - verdicts against SeqApi.acceptExplicit."""
 import build, zv, frames, datagen
 
 ASSUMPTIONS = ["a registered sequence producer is driven without a formatted dictionary and never together with long-distance matching or workers (both refused by the library)",
@@ -1003,6 +1006,300 @@ def run_merge_family(ctx):
     return ev, dict(arrays=len(arrs), arrays_with_delimiter_runs=runs2, extracted=len(srcs), extracted_with_literal_delimiter_runs=nruns)
 
 
+# ------------------------------------------------------------------------------------------------------------------------------------------
+# ZSTD_compressSequences with a history in front of the frame (prefix / dictionary / CDict), with worker threads requested, and with raw
+# offsets that equal an entry of the repeat-offset history at a position where that distance is NOT available (harness op `cseqx`)
+
+def synth_parse(rng, n, hist, W, mm, alpha, longmatch=False):
+    """a source of n bytes made by executing a fresh parse over the history `hist` (bytes in front of the frame: prefix / dictionary content):
+    returns (x, seqs, tail).  Every offset is within what ZSTD_validateSequence allows at the match start:
+    position + len(hist) while position <= W, W beyond."""
+    D = len(hist); blk = min(W, 131072)
+    buf = bytearray(hist)
+    seqs = []; anchor = 0
+    recent = []
+    while True:
+        pos = len(buf) - D
+        ll = rng.choice([0, 0, 1, 2, 5, 17, 60, 300]) if (pos or D) else rng.choice([1, 2, 5, 17, 60])
+        ml = rng.choice([mm, mm, mm + 1, 8, 20, 100, 700]) if not longmatch else rng.choice([mm, 30, 5000, 70000, 140000, 300000])
+        if pos + ll + ml + 1 > n:
+            break
+        buf += lit_bytes(rng, ll, alpha)
+        pos += ll
+        # (an offset beyond the window is used only where any block holding the sequence still ends within the first W bytes: the conformance
+        #  rule of the format is about the block, ZSTD_validateSequence's about the position)
+        lim = pos + D if pos + blk <= W else min(W, pos + D)
+        pool = [rng.randint(1, lim), rng.randint(1, lim), rng.randint(max(1, lim - 40), lim), lim, rng.randint(1, min(lim, 16))]
+        if D and pos + blk <= W:
+            pool += [pos + rng.randint(1, D), pos + rng.randint(1, D), pos + D]      # starts inside the history in front of the frame
+        pool += [o for o in recent[-3:] if o <= lim]
+        off = rng.choice(pool)
+        if off >= ml:
+            st = len(buf) - off
+            buf += buf[st:st + ml]
+        else:
+            pat = bytes(buf[-off:])
+            buf += (pat * (ml // off + 1))[:ml]
+        seqs.append((off, ll, ml)); recent.append(off)
+    tail = n - (len(buf) - D)
+    buf += lit_bytes(rng, tail, alpha)
+    return bytes(buf[D:]), seqs, tail
+
+
+def hist_cases(ctx, quick):
+    """list of dict(x, p, sq, mode, h, how, expect, model): expect = 'ok' (valid parse: frame must decode to x and be conformant),
+    'same:<k>' (additionally byte-identical to case k), 'model' (verdict of SeqApi.acceptExplicit on `model`)"""
+    rng = ctx.rng
+    cases = []
+
+    def alpha_():
+        return [rng.randrange(256) for _ in range(rng.choice([6, 20, 60]))]
+
+    # (W) worker threads requested: ZSTD_compressSequences works within the calling thread whatever ZSTD_c_nbWorkers says - sources on both
+    #     sides of the smallest job size (512 KiB), both delimiter modes; the frame is the one produced without the parameter
+    for i in range(6 if quick else 80):
+        n = [524289, 700000, 1 << 20, 1200000, 300000, 524288][i % 6] if quick else rng.choice([524289, 524288, 600000, 1 << 20, 1500000, 100000])
+        wl = rng.choice([19, 20, 21]); mm = rng.choice([3, 4, 5, 6]); W = 1 << wl
+        x, seqs, tail = synth_parse(rng, n, b"", W, mm, alpha_(), longmatch=(i % 2 == 0))
+        delim = i % 3 != 0
+        p = {100: rng.choice([1, 3, 5, 10]), 101: wl, 105: mm, 1008: int(delim), 1009: int(rng.random() < 0.6)}
+        if rng.random() < 0.4: p[201] = 1
+        if delim:
+            seqs2 = []
+            for (o, l, m) in seqs:          # with_delimiters cuts matches only at its block targets: cut the very long ones beforehand
+                while m > 100000:
+                    seqs2.append((o, l, 65536)); l = 0; m -= 65536
+                seqs2.append((o, l, m))
+            sq = with_delimiters(rng, seqs2, tail, 131072)
+        else:
+            sq = list(seqs)
+        base = len(cases)
+        cases.append(dict(x=x, p=dict(p), sq=sq, mode="-", h=None, expect="ok", how="valid parse of %d bytes, no worker threads (reference)" % n))
+        q = dict(p); q[400] = rng.choice([1, 2, 2, 4])
+        if rng.random() < 0.3: q[401] = 1 << 20
+        cases.append(dict(x=x, p=q, sq=sq, mode="-", h=None, expect="same:%d" % base, how="the same valid parse of %d bytes with ZSTD_c_nbWorkers = %d" % (n, q[400])))
+    # (P) a history in front of the frame: valid parses whose matches start inside the prefix / dictionary, validation mostly on
+    for i in range(36 if quick else 700):
+        mode = "PPPDC"[i % 5]
+        D = rng.choice([7, 300, 3000, 20000, 70000])
+        n = rng.choice([900, 5000, 30000, 150000]) if i % 9 else 290000
+        wl = rng.choice([17, 18, 20]) if i % 4 else rng.choice([10, 11, 13]); mm = rng.choice([3, 4, 5, 6]); W = 1 << wl
+        if mode == "C": mm = max(mm, 4)        # (an attached CDict brings its own minMatch: a 3-byte match is below the validation floor then)
+        h = datagen.randbytes(rng, D)
+        if h[:4] == b"\x37\xa4\x30\xec": h = b"\x00" + h[1:]
+        x, seqs, tail = synth_parse(rng, n, h, W, mm, alpha_())
+        delim = rng.random() < 0.6
+        p = {100: rng.choice([1, 3, 3, 7, 10, 13]), 101: wl, 105: mm, 1008: int(delim), 1009: int(i % 6 != 5)}
+        if rng.random() < 0.5: p[1016] = rng.randint(0, 2)
+        if rng.random() < 0.3: p[201] = 1
+        sq = with_delimiters(rng, seqs, tail, min(W, 131072)) if delim else list(seqs)
+        cases.append(dict(x=x, p=p, sq=sq, mode=mode, h=h, expect="ok", how="valid parse reaching into the %s (%d bytes) in front of the frame" % ({"P": "prefix", "D": "loaded raw dictionary", "C": "referenced CDict"}[mode], D)))
+    # (V) verdicts, explicit delimiters (or a single block without delimiters), validation on
+    def explicit_model(p, x, sq, D, nodelim):
+        W = 1 << p[101]
+        limit = min(W, 131072, p.get(1015, 131072))
+        if nodelim:
+            used = sum(l + m for _, l, m in sq)
+            sq = list(sq) + [(0, len(x) - used, 0)]
+        return "seqaccept %d %d %d %d %d %s" % (limit, W, D, p[105], len(x), sstr(sq))
+
+    def search_params(p):
+        k = rng.randrange(3)
+        if k == 0: p[1016] = 1
+        elif k == 1: p[100] = rng.choice([10, 12, 16]); p[1016] = 0
+        else: p[100] = rng.choice([10, 13, 19]); p.pop(1016, None)
+        return p
+
+    # (V1) a raw offset equal to an entry of the repeat-offset history ({1,4,8} at the start of a frame) where fewer bytes than that exist:
+    #      first sequence of the frame - possibly after blocks without any sequence - with 0..3 bytes of prefix
+    for i in range(60 if quick else 1500):
+        D = rng.choice([0, 0, 0, 1, 2, 3]); mode = "-" if D == 0 else rng.choice("PDC")
+        h = bytes(rng.randrange(1, 256) for _ in range(D)) if D else None
+        n = rng.choice([40, 300, 4000]); mm = rng.choice([3, 4, 5])
+        unit = bytes(rng.randrange(256) for _ in range(8))
+        x = (unit * (n // 8 + 1))[:n]
+        nodelim = i % 3 == 0
+        pre = []
+        pos = 0
+        if not nodelim:
+            for _ in range(rng.choice([0, 0, 1, 2])):
+                l = rng.choice([0, 1, 2, 3]); pre.append((0, l, 0)); pos += l
+        bait = rng.choice([1, 4, 4, 8, 8, 8])
+        ll = rng.randint(0, 9)
+        if rng.random() < 0.8:
+            ll = rng.randint(0, max(0, bait - 1 - pos - D)) if bait - 1 - pos - D >= 0 else 0
+        if ll == 0:
+            bait = rng.choice([4, 8])         # with no literals the history is read one entry further: 4 and 8 are repeat codes 1 and 2
+        ml = rng.choice([mm + 1, 6, 20, n])
+        ml = max(4, min(ml, n - pos - ll - 1))
+        sq = pre + [(bait, ll, ml)]
+        p2 = pos + ll + ml
+        if rng.random() < 0.7 and p2 + 12 < n:
+            l2 = rng.choice([0, 1, 3]); m2 = max(4, min(rng.choice([5, 30, n]), n - p2 - l2 - 1)); sq.append((rng.choice([8, 8, 16, bait]), l2, m2)); p2 += l2 + m2
+        if not nodelim:
+            sq.append((0, n - p2, 0))
+        p = search_params({100: 3, 101: rng.choice([w for w in (10, 12, 17) if (1 << w) >= n]), 105: mm, 1008: int(not nodelim), 1009: 1})
+        cases.append(dict(x=x, p=p, sq=sq, mode=mode, h=h, expect="model", model=explicit_model(p, x, sq, D, nodelim),
+                          how="first match of the frame at position %d (+%d bytes of history) with raw offset %d, an entry of the initial repeat-offset history" % (pos + ll, D, bait)))
+    # (V2) beyond the window: with a history in front of the frame an offset larger than the window is fine while the position is within the
+    #      window; the same raw offset again (now in the repeat-offset history) once the position has passed the window is not
+    for i in range(40 if quick else 1000):
+        wl = rng.choice([10, 10, 11]); W = 1 << wl; mm = rng.choice([3, 4, 5])
+        D = rng.choice([W // 2 + 200, W + 300, 3 * W]); mode = rng.choice("PPDC")
+        h = datagen.randbytes(rng, D)
+        if h[:4] == b"\x37\xa4\x30\xec": h = b"\x00" + h[1:]
+        n = rng.choice([2 * W + 500, 3 * W, 5 * W + 77])
+        buf = bytearray(h); sq = []; cur = 0; alpha = alpha_()
+        far = []
+        nb = 0
+        while len(buf) - D < n:
+            pos = len(buf) - D
+            bs = min(n - pos, rng.choice([W, W, W // 2, 300]))
+            start = pos; k = rng.choice([1, 2, 3])
+            for j in range(k):
+                pos = len(buf) - D
+                room = bs - (pos - start)
+                if room < 40: break
+                ll = rng.choice([0, 1, 3, 9]); ml = rng.choice([4, 5, 9, 20])
+                buf += lit_bytes(rng, ll, alpha); pos += ll
+                lim = W if pos > W else pos + D
+                if pos <= W and D + pos > W and rng.random() < 0.8:
+                    off = rng.randint(W + 1, pos + D); far.append(off)
+                else:
+                    off = rng.randint(1, lim)
+                st = len(buf) - off
+                if off >= ml: buf += buf[st:st + ml]
+                else: buf += (bytes(buf[-off:]) * (ml // off + 1))[:ml]
+                sq.append((off, ll, ml))
+            rest = bs - (len(buf) - D - start)
+            buf += lit_bytes(rng, rest, alpha); sq.append((0, rest, 0)); nb += 1
+        x = bytes(buf[D:D + n])
+        p = {100: 3, 101: wl, 105: mm, 1008: 1, 1009: 1}
+        kind = i % 4
+        how = "valid parse over a %d-byte history and a %d-byte window" % (D, W)
+        if kind != 0 and far:
+            # re-use a far offset in a sequence that starts beyond the window: choose the history entry the transcriber would code it with
+            posl = []; pos = 0; hst = (1, 4, 8)
+            on = True
+            cands = []
+            for j, (o, l, m) in enumerate(sq):
+                if o and pos + l > W:
+                    for hv in set(hst):
+                        if hv > W: cands.append((j, hv))
+                if o: hst = hist_after(on, hst, [(o, l, m)])
+                pos += l + m
+            if cands:
+                j, hv = rng.choice(cands)
+                sq[j] = (hv, sq[j][1], sq[j][2])
+                how = "a sequence beyond the %d-byte window repeats raw offset %d, valid earlier only through the %d-byte history in front of the frame" % (W, hv, D)
+                if kind != 3: p = search_params(p)
+        elif kind == 0 and rng.random() < 0.5:
+            p = search_params(p)
+        cases.append(dict(x=x, p=p, sq=sq, mode=mode, h=h, expect="model", model=explicit_model(p, x, sq, D, False), how=how))
+    # (V3) field corruptions of valid parses over a history: the offset bound is position + history
+    for i in range(80 if quick else 3000):
+        mode = "PPDC"[i % 4]; D = rng.choice([5, 100, 2000, 9000]); n = rng.choice([300, 3000, 9000])
+        wl = rng.choice([10, 12, 17]); mm = rng.choice([3, 4, 5]); W = 1 << wl
+        if mode == "C": mm = max(mm, 4)
+        h = datagen.randbytes(rng, D)
+        if h[:4] == b"\x37\xa4\x30\xec": h = b"\x00" + h[1:]
+        x, seqs, tail = synth_parse(rng, n, h, W, mm, alpha_())
+        sq = with_delimiters(rng, seqs, tail, min(W, 131072))
+        idx = [j for j, e in enumerate(sq) if e[0]]
+        if not idx:
+            continue
+        j = rng.choice(idx); o, l, m = sq[j]
+        pos = sum(a + b for _, a, b in sq[:j]) + l
+        bound = W if pos > W else pos + D
+        o = rng.choice([bound, bound + 1, bound + 1, bound + 2, pos + D, pos + D + 1, pos + 1, W + 1, o + D, bound + rng.randint(1, 5000)])
+        sq[j] = (max(1, o), l, m)
+        p = {100: 3, 101: wl, 105: mm, 1008: 1, 1009: 1}
+        if rng.random() < 0.5: p = search_params(p)
+        cases.append(dict(x=x, p=p, sq=sq, mode=mode, h=h, expect="model", model=explicit_model(p, x, sq, D, False),
+                          how="offset of one sequence moved to %d (position %d, %d bytes of history in front, window %d)" % (sq[j][0], pos, D, W)))
+    return cases
+
+
+def run_hist_family(ctx):
+    exe = seqprod_harness("san"); plain = frames.harness("plain")
+    cases = hist_cases(ctx, ctx.quick())
+    ev = 0
+    lines = ["cseqx %s %s %s %s%s" % (frames.pstr(c["p"]), frames.hx(c["x"]), sstr(c["sq"]), c["mode"], (" " + frames.hx(c["h"])) if c["h"] else "") for c in cases]
+    chunks = frames.split_chunks(lines, 16)
+    oc = frames.parallel(lambda ch: [run_resume(exe, ch, timeout=1800)], chunks)
+    res = []
+    for (out, crashes), ch in zip(oc, chunks):
+        res += out
+        for bad, err in crashes[:1]:
+            k = lines.index(bad) if bad in lines else None
+            ctx.violation("ZSTD_compressSequences crashed / was stopped by the sanitizer (%s; params %s): %s" % (cases[k]["how"] if k is not None else "?", frames.pstr(cases[k]["p"]) if k is not None else "?", err[-600:]),
+                          dict(kind="monitor", harness="zvh_seqprod", op=bad[:40000000], stderr=err[-3000:]))
+    ml = [c["model"] for c in cases if c["expect"] == "model"]
+    mo = iter(frames.parallel(lambda ch: frames.model_lines(ch), frames.split_chunks(ml, 16)) if ml else [])
+    okidx = [k for k, r in enumerate(res) if r != "crash" and not r.startswith("err")]
+    def dh(k): return (" " + frames.hx(cases[k]["h"])) if cases[k]["h"] else ""
+    dl = ["dec %d %s%s" % (len(cases[k]["x"]) + 70000, res[k], dh(k)) for k in okidx]
+    wl = ["xxh " + frames.hx(cases[k]["x"]) for k in okidx]
+    cfk = [k for k in okidx if cases[k]["expect"] == "ok" and len(cases[k]["x"]) <= 300000]
+    cl = ["conform %s %s %s %d 0" % (res[k], frames.hx(cases[k]["x"]), frames.hx(cases[k]["h"]) if cases[k]["h"] else "-", cases[k]["p"].get(1015, 0)) for k in cfk]
+    da = dict(zip(okidx, frames.parallel(lambda ch: frames.run_lines(plain, ch)[1], frames.split_chunks(dl, 16)))) if dl else {}
+    wa = dict(zip(okidx, frames.parallel(lambda ch: frames.run_lines(plain, ch)[1], frames.split_chunks(wl, 16)))) if wl else {}
+    ca = dict(zip(cfk, frames.parallel(lambda ch: frames.model_lines(ch), frames.split_chunks(cl, 16)))) if cl else {}
+    stats = dict(valid=0, workers=0, accept=0, reject=0)
+    shown = {}
+    report = ctx.violation
+
+    class _Capped:
+        # at most three reports per kind of disagreement and family, so that one kind does not hide the others
+        def violation(self, desc, replay, **kw):
+            key = (desc[:40], cur["how"][:12])
+            shown[key] = shown.get(key, 0) + 1
+            if shown[key] <= 3:
+                report(desc, replay, **kw)
+    cur = {}
+    ctx_ = ctx; ctx = _Capped()
+    for k, (c, ln, r) in enumerate(zip(cases, lines, res)):
+        m = next(mo) if c["expect"] == "model" else None
+        cur = c
+        if r == "crash":
+            continue
+        ev += 1
+        rep = dict(kind="monitor", harness="zvh_seqprod", op=ln[:40000000], impl=r[:200], how=c["how"])
+        if c["expect"] == "model":
+            rep["model_op"] = c["model"][:40000000]; rep["model"] = m
+            cacc = not r.startswith("err"); macc = m == "accept"
+            if cacc and not macc:
+                ctx.violation("with validation on, ZSTD_compressSequences ACCEPTED a list the model refuses (%s; params %s)%s" % (c["how"], frames.pstr(c["p"]),
+                              "; the frame it emitted is rejected by the decoder: %s" % da[k] if da.get(k, "").startswith("err") else ""), dict(rep, decoder=da.get(k)))
+            elif macc and not cacc:
+                ctx.violation("with validation on, ZSTD_compressSequences refused (%s) a list whose every offset is within position + history (resp. the window) at its match start (%s; params %s)" % (r, c["how"], frames.pstr(c["p"])), rep)
+            else:
+                stats[m] += 1
+                if cacc and da[k].startswith("err"):
+                    ctx.violation("accepted list, but the decoder rejects the frame: %s (%s)" % (da[k], c["how"]), dict(rep, decoder=da[k]))
+            continue
+        if r.startswith("err"):
+            ctx.violation("a valid parse was refused: %s (%s; params %s)" % (r, c["how"], frames.pstr(c["p"])), rep)
+            continue
+        ev += 1
+        if da[k] != wa[k]:
+            ctx.violation("frame from a valid parse does not decode to the source: %r expected %r (%s; params %s)" % (da[k], wa[k], c["how"], frames.pstr(c["p"])), dict(rep, library_decoder=da[k], expected=wa[k]))
+            continue
+        if k in ca:
+            ev += 1
+            if not ca[k].startswith("ok"):
+                ctx.violation("frame from a valid parse is not conformant / not decodable independently: %s (%s; params %s)" % (ca[k][:200], c["how"], frames.pstr(c["p"])), dict(rep, conformance=ca[k][:300]))
+                continue
+        if c["expect"].startswith("same:"):
+            ev += 1; stats["workers"] += 1
+            ref = res[int(c["expect"][5:])]
+            if ref != "crash" and ref != r:
+                ctx.violation("ZSTD_compressSequences emitted a different frame with ZSTD_c_nbWorkers set (%d vs %d bytes) although it compresses within the calling thread (%s; params %s)" % (len(r) // 2, len(ref) // 2, c["how"], frames.pstr(c["p"])), rep)
+        else:
+            stats["valid"] += 1
+    return ev, len(cases), stats
+
+
 def sstr(seqs):
     return ",".join("%d:%d:%d" % s for s in seqs) or "-"
 
@@ -1210,12 +1507,15 @@ def correspondence(ctx):
     # (5) ZSTD_mergeBlockDelimiters against the model; extracted lists with runs of bare delimiters merged and fed back
     mev, mstats = run_merge_family(ctx)
     ev += mev
-    return dict(evaluations=ev, distinct_nontrivial=len({l for l in lines}) + len({l for l in cl2}) + len(pcases) + lcases + mstats["arrays"] + mstats["extracted"],
+    # (6) a history in front of the frame (prefix / dictionary / CDict), worker threads requested, raw offsets equal to repeat offsets out of history
+    hev, hcases, hstats = run_hist_family(ctx)
+    ev += hev
+    return dict(evaluations=ev, distinct_nontrivial=len({l for l in lines}) + len({l for l in cl2}) + len(pcases) + lcases + mstats["arrays"] + mstats["extracted"] + hcases,
                 rule="valid parses: random greedy parser (minMatch 3..7, windows 1 KiB..1 MiB, repcode-heavy sources, blocks cut at random sizes with explicit delimiters incl. matches split across blocks; delimiter-free lists with "
                      "matches crossing 128 KiB) and the library's extracted sequences (with / without merged delimiters), several levels / repcode-search modes / maxBlockSize; corruptions of valid explicit-delimiter lists "
                      "(offset +-, match length, literal length, delimiter removed / inserted / truncated list / extra entry / random entries) with validation on; ASan+UBSan build",
                 samples=[dict(op=lines[0][:50] + " ... " + lines[0].split()[-1][:60], result=res[0][:40])], valid_parses=len(lines), corruptions=len(cl2), verdict_agreement=agree,
-                producer_cases=len(pcases), producer_stats=pstats, literal_run_cases=lcases, merge=mstats, length_wrap_lists=nwrap)
+                producer_cases=len(pcases), producer_stats=pstats, literal_run_cases=lcases, merge=mstats, length_wrap_lists=nwrap, history_cases=hcases, history_stats=hstats)
 
 
 def replay(ctx, data):
